@@ -18,7 +18,7 @@ def run(ctx):
     ctx.explanation = (
         "Decided: D1 RE.__call__ collects the futures of every installed suspender that is tripped and pushes a wait_for plan ABOVE the "
         "user's plan (with its None response) before the task is built, so the wait runs first; get_futures returns nothing unless "
-        "tripped; D2 SuspenderBase.__call__ returns before any effect when not installed; remove() unsubscribes from the signal, releases "
+        "tripped, and tripped is a latch (set under the suspend condition, cleared only under the resume condition); D2 SuspenderBase.__call__ returns before any effect when not installed; remove() unsubscribes from the signal, releases "
         "a pending event, then clears RE and the tripped flag (in that order, under the lock); install subscribes with run=True so an "
         "already bad value trips at once; D3 RunEngine.remove_suspender calls remove() only for an installed suspender and always discards; "
         "install adds then installs. Not decided: arbitrary install / trip histories at run time.")
@@ -47,6 +47,10 @@ def run(ctx):
     ok = any(isinstance(s, ast.If) and A.norm(s.test) == "not self.tripped" and isinstance(s.body[0], ast.Return) and A.norm(s.body[0].value) == "([], '')" for s in gf.node.body) \
         and "[self.__make_event().wait]" in t.replace("_SuspenderBase", "")
     ctx.ob("C31.D1-tripped-suspenders-gate-start", cname(gf, None, "no futures unless tripped; otherwise the release event's wait"), ok, "" if ok else "get_futures changed", where=where(gf, gf.node))
+    # the gate reads `tripped`: it must stay set from the trip until the documented resume condition releases it
+    from . import c30
+
+    c30.tripped_latch(ctx, repo, rule="C31.D1-tripped-latched-until-release")
     # D2
     sc = repo.func(SU, "SuspenderBase.__call__")
     withs = [s for s in sc.node.body if isinstance(s, ast.With)]
